@@ -321,7 +321,9 @@ class PVLEncoder(object):
         if enc_val.startswith(self.grammar.quotes):
             # deal with quoted lines that need to preserve
             # newlines
-            s = self.format(s, level)
+            # Only indent: there is nothing to wrap before the value, and
+            # wrapping "key = " on its own would lose the key.
+            s = level * (self.indent * " ") + s
             s += enc_val
 
             if self.end_delimiter:
